@@ -42,7 +42,10 @@ def cases(draw, transports):
     return {'kind': kind, 'text_mode': text_mode, 'words': words, 'pieces': pieces, 'ending': ending, 'list': lst,
             'entry': draw(st.sampled_from(['expect', 'expect', 'expect_exact', 'expect_list', 'read', 'readline'])),
             'T': draw(st.sampled_from([0.5, 2.0, 0])), 'use_poll': draw(st.booleans()),
-            'after': draw(st.lists(st.sampled_from(['expect', 'expect_exact', 'read', 'readline', 'expect_eof']), min_size=3, max_size=3))}
+            'after': draw(st.lists(st.sampled_from(['expect', 'expect_exact', 'read', 'readline', 'expect_eof']), min_size=3, max_size=3)),
+            # all the peer does happens right after the reader's k-th system call (between two specific calls of
+            # read_nonblocking: poll, read, liveness check, timed wait) instead of at times
+            'pin': draw(st.sampled_from([None, None, 1, 2, 3, 4, 5, 6, 8]))}
 
 
 def conv(s, text_mode):
@@ -147,6 +150,10 @@ def check_sim(case, col=None):
     if case['T'] == 0:
         for a in acts:
             a['t'] = 0.0
+    if case.get('pin'):
+        for a in acts:
+            a['t'] = 0.0
+            a['at_call'] = case['pin']
     sim = simkernel.Sim(case['kind'], acts)
     sp = None
     feats = set()
@@ -163,6 +170,14 @@ def check_sim(case, col=None):
                     ret, exc = do_call(sp, case['entry'], case['list'], text_mode, case['T'])
             except Blocked as b:
                 raise Violation('blocks', '%s: never returns (%s)' % (where, b))
+            peer_times = [t_ for (t_, n_, _) in sim.log if n_.startswith('peer:')]
+            if case.get('pin') and (sim.call_actions or (case['T'] and peer_times and max(peer_times) >= 0.9 * case['T'])):
+                # ... or it acted only when the time limit of the call had (almost) run out: either outcome is right
+                # the reader made fewer system calls than the pin asked for: the peer never acted during the call,
+                # the generated schedule did not happen
+                if col is not None:
+                    col.discarded += 1
+                return
             want = expected_kind(case, text)
             got_kind = judge(sp, case, ret, exc, None, where)
             if case['T'] == 0:
